@@ -4,7 +4,7 @@
     fragmentr-sexp VERSION FP SEXP…
         VERSION  program version, FP `1` iff the frame-pointer convention is used,
         SEXP…    the program recipe (`(prog (subs …) (mainlocals …) MAIN)`, as for the `prog` command)
-      → `fragmentR=true|false stage=N reentersOk=true|false gen=ok|err renamed=true|false`
+      → `fragmentR=true|false stage=N reentersOk=true|false gen=ok|err renamed=true|false dynPartial=… refStrict=…`
         fragmentR  the program is inside `Models.FragmentR.inFragmentR` AND the configuration is the
                    one `genProg_correct` covers (scratch-slot convention),
         renamed    the same after a canonical injective renaming of the automatically numbered
@@ -12,7 +12,10 @@
                    the slots the real compiler chose; the fragment does not depend on which slots),
         stage      1 acyclic / 2 recursion / 3 by-reference parameters / 4 frame pointers,
         reentersOk the `reenters` fields are what `findRecursionPoints` computes from the bodies,
-        gen        the model generator `genProg VERSION FP` succeeds.
+        gen        the model generator `genProg VERSION FP` succeeds,
+        refStrict  (scratch convention) the renamed program is in the fragment of `genProg_correct_ref`
+                   (by-reference parameters under the by-reference discipline R9),
+        dynPartial (scratch convention) … in the fragment of `genProg_correct_dyn_partial`.
 
     composed-sexp VERSION FP TEALHEX SEXP…
         TEALHEX  the real TEAL text (hex of utf-8), SEXP… the program recipe
@@ -91,7 +94,11 @@ def answer (p : Src.Prog) (version : Nat) (fp : Bool) : String :=
   let dynp := match canonicalRename p with
     | some p' => !fp && inFragmentC false p' true
     | none => false
-  s!"fragmentR={showB inF} stage={stageOf p fp} reentersOk={showB (reentersOk p)} gen={gen} renamed={showB ren} dynPartial={showB dynp}"
+  -- stage 3 under the by-reference discipline (`genProg_correct_ref`), scratch convention
+  let refs := match canonicalRename p with
+    | some p' => !fp && inFragmentC false p' true true
+    | none => false
+  s!"fragmentR={showB inF} stage={stageOf p fp} reentersOk={showB (reentersOk p)} gen={gen} renamed={showB ren} dynPartial={showB dynp} refStrict={showB refs}"
 
 def fragmentrSexp : List String → String
   | ver :: fp :: rest =>
@@ -112,15 +119,20 @@ def composedWhy (p : Src.Prog) (P : Avm.Program) (version : Nat) (fp : Bool) : S
     s!"{why} fragment={showB (Check.fragmentOnCert fp p' c)} main={showB (Check.certMainOk version p' c)} subs={showB (Check.certSubsOk version fp p' c)} closed={showB (Check.certClosed c)}"
   | _, _ => ""
 
-/-- `composed=true`: hypotheses of `compile_correct_validated_prog`; `composed=partial`: those of
-    `compile_correct_validated_prog_dyn_partial` (run-time addressed slots, scratch convention) -/
+/-- `composed=true`: hypotheses of `compile_correct_validated_prog`; `composed=true thm=ref`: those of
+    `compile_correct_validated_prog_ref` (by-reference discipline, scratch convention);
+    `composed=partial`: those of `compile_correct_validated_prog_dyn_partial` (run-time addressed
+    slots outside the discipline, scratch convention) -/
 def composedAnswer (p : Src.Prog) (P : Avm.Program) (version : Nat) (fp : Bool) : String :=
   match Check.validateComposed version fp p P with
   | .ok true => "composed=true"
   | .ok false =>
-    (match (if fp then (.ok false : Except String Bool) else Check.validateComposed version false p P true) with
-     | .ok true => "composed=partial"
-     | _ => "composed=false" ++ composedWhy p P version fp)
+    (match (if fp then (.ok false : Except String Bool) else Check.validateComposed version false p P true true) with
+     | .ok true => "composed=true thm=ref"
+     | _ =>
+       (match (if fp then (.ok false : Except String Bool) else Check.validateComposed version false p P true) with
+        | .ok true => "composed=partial"
+        | _ => "composed=false" ++ composedWhy p P version fp))
   | .error e => "composed=false " ++ (e.replace "\n" " ")
 
 def composedSexp : List String → String
